@@ -713,6 +713,7 @@ type request struct {
 	Watchdog  int             `json:"watchdogMs"`
 	Mix       mixParams       `json:"mix"`
 	Burst     burstParams     `json:"burst"`
+	Race      raceParams      `json:"race"`
 	Cases     json.RawMessage `json:"cases"`
 }
 
@@ -976,6 +977,13 @@ type burstParams struct {
 	// BigFirst: requests larger than the server's RequestBufSize are issued first and the rest
 	// only after their handlers were entered (so that a large request never waits for memory)
 	BigFirst bool `json:"bigFirst"`
+	// ReleaseAll: all held handlers are released at the same moment (several workers are returned
+	// to the pool while several receive loops wait for one), round after round
+	ReleaseAll bool `json:"releaseAll"`
+	// AbortWait: a connection whose request waits for request memory is abandoned by its client and
+	// torn down by the server (Shutdown makes the server write to it) while the memory is still held
+	// by the running handlers; further requests keep waiting and are served afterwards
+	AbortWait bool `json:"abortWait"`
 	// HoldMs: after the pile-up keep the handlers held for this long (probe of the server's
 	// packet read deadline; the only deliberate wall-clock wait of this driver)
 	HoldMs int `json:"holdMs"`
@@ -1036,6 +1044,9 @@ func opBurst(q request) map[string]any {
 	}
 	_, limit := s.srv.RequestsMemory()
 	_, maxW := s.srv.WorkersPoolSize()
+	if q.Burst.AbortWait {
+		return burstAbortWait(q, s, rec, rnd)
+	}
 	var all []*callSt
 	type pendingStart struct {
 		id   int
@@ -1119,15 +1130,32 @@ func opBurst(q request) map[string]any {
 			}
 			continue
 		}
-		cs := cand[rnd.Intn(len(cand))]
-		released[cs.id] = true
-		cs.gate <- "ok"
-		waitCh(cs.exited, 10*time.Second)
+		if q.Burst.ReleaseAll {
+			for _, cs := range cand {
+				released[cs.id] = true
+			}
+			for _, cs := range cand {
+				cs.gate <- "ok"
+			}
+			for _, cs := range cand {
+				waitCh(cs.exited, 10*time.Second)
+			}
+		} else {
+			cs := cand[rnd.Intn(len(cand))]
+			released[cs.id] = true
+			cs.gate <- "ok"
+			waitCh(cs.exited, 10*time.Second)
+		}
 		rec.logS(s, map[string]any{"ev": "sample"}, func(ev map[string]any) {
 			cur, _ := s.srv.RequestsMemory()
 			ev["mem"], ev["running"], ev["waiting"] = cur, s.running, s.srv.RequestsCurrent()
 		})
 	}
+	return burstFinish(q, s, rec, all, total, limit, maxW, piled, nil)
+}
+
+// burstFinish waits for every call to return, tears the scenario down and writes the trace.
+func burstFinish(q request, s *scen, rec *recorder, all []*callSt, total int, limit int64, maxW int, piled bool, extra map[string]any) map[string]any {
 	// every request must be answered while both sides are still open
 	retDeadline := time.Now().Add(time.Duration(q.Watchdog) * time.Millisecond)
 	for _, cs := range all {
@@ -1142,12 +1170,130 @@ func opBurst(q request) map[string]any {
 	w := bufio.NewWriter(f)
 	defer w.Flush()
 	r := map[string]any{"calls": total, "peak": s.peak, "limit": limit, "maxWorkers": maxW, "piled": piled}
+	for k, v := range extra {
+		r[k] = v
+	}
 	r["events"] = rec.flush(w)
 	r["rpclog"] = s.logs()
 	if len(hung) > 0 {
 		r["hung"] = hung
 	}
 	return r
+}
+
+// releaseOneByOne releases the held handlers of `all` one at a time (random order among those that
+// entered), sampling the server's accounting after each.
+func releaseOneByOne(s *scen, rec *recorder, rnd *rand.Rand, all []*callSt, skip map[int]bool) {
+	released := map[int]bool{}
+	for id := range skip {
+		released[id] = true
+	}
+	for len(released) < len(all) {
+		rec.mu.Lock()
+		n0 := len(rec.events)
+		rec.mu.Unlock()
+		var cand []*callSt
+		for _, cs := range all {
+			if released[cs.id] {
+				continue
+			}
+			select {
+			case <-cs.entered:
+				cand = append(cand, cs)
+			default:
+			}
+		}
+		if len(cand) == 0 {
+			rec.mu.Lock()
+			t0 := time.Now()
+			for len(rec.events) == n0 && time.Since(t0) < 10*time.Second {
+				waitCond(rec.cond, 50*time.Millisecond)
+			}
+			stuck := len(rec.events) == n0
+			rec.mu.Unlock()
+			if stuck {
+				return
+			}
+			continue
+		}
+		cs := cand[rnd.Intn(len(cand))]
+		released[cs.id] = true
+		cs.gate <- "ok"
+		waitCh(cs.exited, 10*time.Second)
+		rec.logS(s, map[string]any{"ev": "sample"}, func(ev map[string]any) {
+			cur, _ := s.srv.RequestsMemory()
+			ev["mem"], ev["running"], ev["waiting"] = cur, s.running, s.srv.RequestsCurrent()
+		})
+	}
+}
+
+// burstAbortWait: see burstParams.AbortWait.  Connections c1..c(n-2) each get one request, which
+// fill the request memory; the requests of the last two connections wait for memory.  The client
+// of the first waiting connection is closed, then Server.Shutdown() makes the server write to that
+// connection, notice that it is gone and abort its memory wait.  The accounted memory must still
+// cover the running handlers, and the other waiting request must keep waiting until memory is freed.
+func burstAbortWait(q request, s *scen, rec *recorder, rnd *rand.Rand) map[string]any {
+	_, limit := s.srv.RequestsMemory()
+	_, maxW := s.srv.WorkersPoolSize()
+	n := q.Burst.Conns
+	var all []*callSt
+	size := q.Burst.Sizes[0]
+	for i := 1; i <= n-2; i++ {
+		all = append(all, s.start(i, fmt.Sprintf("c%d", i), 0, false, size))
+	}
+	for _, cs := range all {
+		waitCh(cs.entered, 20*time.Second)
+	}
+	victim := s.start(n-1, fmt.Sprintf("c%d", n-1), 0, false, size)
+	other := s.start(n, fmt.Sprintf("c%d", n), 0, false, size)
+	all = append(all, victim, other)
+	// pile-up: all n requests are inside the server, n-2 of them in handlers
+	piled := false
+	deadline := time.Now().Add(30 * time.Second)
+	for time.Now().Before(deadline) {
+		rec.mu.Lock()
+		run := s.running
+		rec.mu.Unlock()
+		if run == n-2 && s.srv.RequestsCurrent() == int64(n) {
+			piled = true
+			break
+		}
+		time.Sleep(2 * time.Millisecond) // polling interval of the condition wait only
+	}
+	sample := func(ev string, more map[string]any) {
+		e := map[string]any{"ev": ev}
+		for k, v := range more {
+			e[k] = v
+		}
+		rec.logS(s, e, func(ev map[string]any) {
+			cur, _ := s.srv.RequestsMemory()
+			ev["mem"], ev["running"], ev["waiting"] = cur, s.running, s.srv.RequestsCurrent()
+		})
+	}
+	sample("sample", map[string]any{"piled": piled})
+	// the caller abandons the waiting request: its client is closed
+	rec.logS(s, map[string]any{"ev": "drop", "id": victim.id}, nil)
+	waitCh(s.closeSide(victim.client), 20*time.Second)
+	waitCh(victim.returned, 20*time.Second)
+	conns0 := s.srv.ConnectionsCurrent()
+	rec.logS(s, map[string]any{"ev": "shutdown", "side": "server"}, nil)
+	s.srv.Shutdown()
+	// the server has torn the abandoned connection down once its connection count drops
+	aborted := false
+	deadline = time.Now().Add(15 * time.Second)
+	for time.Now().Before(deadline) {
+		if s.srv.ConnectionsCurrent() < conns0 {
+			aborted = true
+			break
+		}
+		time.Sleep(2 * time.Millisecond) // polling interval of the condition wait only
+	}
+	if aborted {
+		sample("abort", map[string]any{"id": victim.id})
+	}
+	sample("sample", nil)
+	releaseOneByOne(s, rec, rnd, all, map[int]bool{victim.id: true})
+	return burstFinish(q, s, rec, all, len(all), limit, maxW, piled, map[string]any{"aborted": aborted})
 }
 
 // waitCond waits on c (its lock held) for at most d.
@@ -1174,6 +1320,8 @@ func handleReq(q request) (resp map[string]any) {
 		return opBurst(q)
 	case "extras":
 		return opExtras(q)
+	case "race":
+		return opRace(q)
 	case "ping":
 		return map[string]any{"ok": true}
 	}
